@@ -256,8 +256,11 @@ def _check(e, profile, m, quota, simultaneous, kind, tiebreak, rec, seam_log, in
                     _feasible_random_successor(r, rm, winners, piles, base, canon.rmap(pout), seam_log, cls_names)
                     info["random_transfers"] += len(winners)
                     add = None
-                elif not all(used):
-                    raise Mismatch("random-draw", r, "more transfer draws than winners")
+                else:
+                    # left-over draws: empty ones (k = 0) and opaque ones are harmless; a second real draw of ballots is not
+                    extra = [en for i, en in enumerate(entries) if not used[i] and en["k"] > 0 and en["pop"] and all(isinstance(b, dict) and "r" in b for b in en["pop"])]
+                    if extra:
+                        raise Mismatch("random-draw", r, f"more transfer draws than winners: {[(len(en['pop']), en['k']) for en in extra]}")
             if add is None:
                 new = canon.rmap(pout)
                 before = None
